@@ -1,5 +1,103 @@
-(* Props/C02.v -- placeholder until the rung-1 theorems are in place. *)
-From LV Require Import Base.Bytes Model.Xref.
-Theorem C02_placeholder : xref_max_id (xref_new 0 XTTable) = 0%N.
-Proof. reflexivity. Qed.
-Print Assumptions C02_placeholder.
+(* Props/C02.v -- property C02: well-formed PDFs from any producer load to their content.
+   Statements only; proofs live in Proofs/XrefProofs.v, Proofs/XrefTableProofs.v, Proofs/ObjStmProofs.v.
+   Claim ladder (DESIGN.md 9): rung 1 = the three structural decoders invert the specification encoders.
+   Rung 1 is complete with Proofs/ObjStmProofs.v (objstm_expand). *)
+From LV Require Import Base.Bytes Base.Sx Model.Obj Model.Writer Model.Parser Model.Xref Spec.XrefSpec
+  Proofs.LexProofs Proofs.XrefProofs Proofs.XrefTableProofs.
+Local Open Scope N_scope.
+
+(* (1) Cross-reference streams.  For ALL field widths (0 = field absent, any positive width, not all three
+   absent), every Index partition into subsections, and entries whose values the widths can hold and lopdf's
+   entry types can store (offsets and container numbers below 2^32, generations and indices below 2^16, object
+   numbers below 2^32): decode_xref_stream applied to the specification encoding returns exactly the table the
+   sections denote, the Size, and the dictionary without Length, W, Index. *)
+Theorem C02_xref_stream_any_W_Index :
+  forall (w0 w1 w2 : nat) (secs : xsections) (d : dict) (size : Z),
+    (1 <= w0 + w1 + w2)%nat ->
+    Forall (fun se => Forall (entry_ok w0 w1 w2) (snd se) /\ Forall entry_in_range (snd se) /\
+                      fst se + N.of_nat (length (snd se)) <= 4294967296) secs ->
+    dict_get d K_Size = Some (OInt size) ->
+    dict_get d K_W = Some (OArr [OInt (Z.of_nat w0); OInt (Z.of_nat w1); OInt (Z.of_nat w2)]) ->
+    dict_get d K_Index = Some (index_array secs) ->
+    decode_xref_plain d (enc_sections w0 w1 w2 secs) =
+    XOk ({| x_type := XTStream; x_entries := spec_map (numbered secs); x_size := i64_as_u32 size |},
+         dict_swap_remove (dict_swap_remove (dict_swap_remove d K_Length) K_W) K_Index).
+Proof. exact xref_stream_any_W_Index. Qed.
+
+(* (1') the same with Index left out: one subsection starting at 0 with Size entries *)
+Theorem C02_xref_stream_default_Index :
+  forall (w0 w1 w2 : nat) (es : list sentry) (d : dict),
+    (1 <= w0 + w1 + w2)%nat ->
+    Forall (entry_ok w0 w1 w2) es /\ Forall entry_in_range es /\ 0 + N.of_nat (length es) <= 4294967296 ->
+    dict_get d K_Size = Some (OInt (Z.of_nat (length es))) ->
+    dict_get d K_W = Some (OArr [OInt (Z.of_nat w0); OInt (Z.of_nat w1); OInt (Z.of_nat w2)]) ->
+    dict_get d K_Index = None ->
+    decode_xref_plain d (enc_sections w0 w1 w2 [(0, es)]) =
+    XOk ({| x_type := XTStream; x_entries := spec_map (numbered [(0, es)]);
+            x_size := i64_as_u32 (Z.of_nat (length es)) |},
+         dict_swap_remove (dict_swap_remove (dict_swap_remove d K_Length) K_W) K_Index).
+Proof. exact xref_stream_default_Index. Qed.
+
+(* the meaning of [spec_map]: with pairwise distinct object numbers (a single-revision file) the table
+   answers, for every number the sections mention, exactly what they say about it (free = absent) and
+   nothing for any other number *)
+Theorem C02_table_lookup :
+  forall l n e, NoDup (map fst l) -> In (n, e) l -> xget (spec_map l) n = entry_meaning e.
+Proof. exact xget_spec_map. Qed.
+
+Theorem C02_table_lookup_none :
+  forall l n, ~ In n (map fst l) -> xget (spec_map l) n = None.
+Proof. exact xget_spec_map_none. Qed.
+
+(* (2) Cross-reference tables.  For any sectioning (at least one subsection, each with at least one entry),
+   any of the three 2-byte entry end-of-lines per entry, any end-of-line after "xref" and after each
+   subsection header, with or without a space before it, and entries a table can express (offset a u32,
+   generation of an entry in use below 2^16, numbers below 2^32): the parser returns exactly the table the
+   sections denote and stops in front of what follows (which must not start with a digit -- it is "trailer"). *)
+Theorem C02_xref_table_any_sectioning :
+  forall (kw_eol : eolk) (secs : list tsection) (rest : bytes),
+    secs <> [] -> Forall tsec_ok secs ->
+    starts_with is_dec_digit rest = false ->
+    xref_table (table_text kw_eol secs ++ rest) =
+    POk {| x_type := XTTable; x_entries := spec_map (numbered (tsections_plain secs)); x_size := 0 |} (space rest).
+Proof. exact xref_table_any_sectioning. Qed.
+
+(* ---------- non-vacuity ---------- *)
+Definition ex_secs : xsections := [(0, [SFree 0 65535; SInUse 17 0]); (5, [SComp 3 1; SInUse 70000 2])].
+Definition ex_dict : dict :=
+  [(bs "Type", OName (bs "XRef")); (K_Size, OInt 7); (K_W, OArr [OInt 1; OInt 3; OInt 2]);
+   (K_Index, index_array ex_secs); (bs "Root", ORef 1 0); (K_Length, OInt 24)].
+
+Theorem C02_example_stream :
+  Forall (fun se => Forall (entry_ok 1 3 2) (snd se) /\ Forall entry_in_range (snd se) /\
+                    fst se + N.of_nat (length (snd se)) <= 4294967296) ex_secs /\
+  dict_get ex_dict K_Index = Some (index_array ex_secs) /\
+  decode_xref_plain ex_dict (enc_sections 1 3 2 ex_secs) =
+  XOk ({| x_type := XTStream; x_entries := [(1, XNormal 17 0); (5, XCompressed 3 1); (6, XNormal 70000 2)];
+          x_size := 7 |},
+       [(bs "Type", OName (bs "XRef")); (K_Size, OInt 7); (bs "Root", ORef 1 0)]).
+Proof.
+  split; [|split; [reflexivity | vm_compute; reflexivity]].
+  repeat constructor; cbn; unfold fits, two32; cbn; lia.
+Qed.
+
+Definition ex_tsecs : list tsection :=
+  [{| ts_first := 0; ts_entries := [(SFree 0 65535, E2_SPCR); (SInUse 9 0, E2_CRLF)]; ts_sp := true; ts_eol := ECRLF |};
+   {| ts_first := 4; ts_entries := [(SInUse 100 2, E2_SPLF)]; ts_sp := false; ts_eol := ECR |}].
+
+Theorem C02_example_table :
+  ex_tsecs <> [] /\ Forall tsec_ok ex_tsecs /\
+  xref_table (table_text ECR ex_tsecs ++ bs "trailer") =
+  POk {| x_type := XTTable; x_entries := [(1, XNormal 9 0); (4, XNormal 100 2)]; x_size := 0 |} (bs "trailer").
+Proof.
+  split; [discriminate|]. split; [|vm_compute; reflexivity].
+  repeat constructor; cbn; unfold u32_max, two32; try lia; discriminate.
+Qed.
+
+Print Assumptions C02_xref_stream_any_W_Index.
+Print Assumptions C02_xref_stream_default_Index.
+Print Assumptions C02_table_lookup.
+Print Assumptions C02_table_lookup_none.
+Print Assumptions C02_xref_table_any_sectioning.
+Print Assumptions C02_example_stream.
+Print Assumptions C02_example_table.
